@@ -9,7 +9,7 @@
    stated in full and refuted before, and are proved at full strength now (the old witnesses stay as
    regression Examples and in corpus/C13.json). *)
 From Coq Require Import String Permutation Sorting.Sorted.
-From PDV Require Import lib.Base lib.C12_Order gen.Gen_C13 model.C13_Rules proof.C13_RulesProof proof.C13_UpdateProof proof.C13_HistoryProof proof.C13_Skel.
+From PDV Require Import lib.Base lib.C12_Order gen.Gen_C13 model.C13_Rules proof.C13_RulesProof proof.C13_UpdateProof proof.C13_HistoryProof model.C13_Paged proof.C13_PagedProof proof.C13_Skel.
 Local Open Scope list_scope.
 
 (* ---------- Part 1: the key-range index ---------- *)
@@ -149,6 +149,25 @@ Theorem C13_retry_converges :
     st2 = st3.
 Proof. exact retry_converges_pf. Qed.
 
+(* ---------- Part 3: the restart path reads the whole storage ---------- *)
+(* `initialize` of the state machine loads every stored rule and group; in the code that is
+   Storage.LoadRules / LoadRuleGroups = LoadRangeByPrefix, a paged scan (pages of minKVRangeLimit keys,
+   next page from last key + "\x00").  For every ascending key list (any number of keys, any prefix
+   chains among them) and every page size >= 1 the scan returns each key of the range exactly once, in
+   order; with the regenerated page size it returns exactly the keys that have the prefix.  The proof
+   rests on `next_key_succ`: last ++ [0] is the immediate successor of last (obligation
+   `load_next_key_ok` in proof/C13_Skel.v ties that expression to the source). *)
+Theorem C13_paged_load_complete :
+  forall limit, (1 <= limit)%nat -> forall fuel lo hi keys,
+    StronglySorted key_lt keys -> (length (filter (in_range lo hi) keys) < fuel)%nat ->
+    paged fuel limit lo hi keys = Some (filter (in_range lo hi) keys).
+Proof. exact paged_complete. Qed.
+
+Theorem C13_load_by_prefix_all_with_prefix :
+  forall q b keys, (b <? 255)%N = true -> StronglySorted key_lt keys ->
+    load_range_by_prefix (q ++ [b]) keys = Some (filter (is_prefix (q ++ [b])) keys).
+Proof. exact load_by_prefix_all_with_prefix. Qed.
+
 (* non-vacuity: nested, adjacent and unbounded ranges, an overriding group; five segments *)
 Example C13_nonvacuous :
   let g0 := Some (default_group [112;100]%N) in let ga := Some (Group [97]%N 1 true) in
@@ -179,3 +198,5 @@ Print Assumptions C13_storage_failure_keeps_served.
 Print Assumptions C13_storage_mirrors_served.
 Print Assumptions C13_accepted_update_reload_equal.
 Print Assumptions C13_retry_converges.
+Print Assumptions C13_paged_load_complete.
+Print Assumptions C13_load_by_prefix_all_with_prefix.
